@@ -260,9 +260,11 @@ def _esc_child(case):
 
 
 # ---- numbers spelled with non-ASCII digits / padded with Unicode whitespace: int(str) and float(str) read them, so every carrier does
-UNI_NUMS = ["\u0661\u0662\u0663", "\uff14\uff12", "\xa07", "7\u2003", "\u0967.\u096b", " 42 ", "1_000", "\u0665e2", "-\u0663"]
+UNI_NUMS = ["\u0661\u0662\u0663", "\uff14\uff12", "\xa07", "7\u2003", "\u0967.\u096b", " 42 ", "1_000", "\u0665e2", "-\u0663",
+            # a leading U+FEFF is an ordinary character of the text (a str never loses it), whatever the carrier
+            "\ufeff12", "\ufeffa", "\ufeff[1, 2]", "\ufeff{\"a\": 1}", "a\ufeffb", "\ufeffh\u00e9llo"]
 UNI_TYPES = ["int", "float", "typing.Optional[int]", "typing.Union[int, str]", "typing.Union[float, str]", "decimal.Decimal", "fractions.Fraction",
-             "typing.List[int]", "bool"]
+             "typing.List[int]", "bool", "str", "typing.Literal['a', 'b']", "pathlib.PurePosixPath", "typing.Dict[str, int]", "LOAD", "STRLOAD"]
 
 
 def _uni_child(_job):
@@ -272,17 +274,19 @@ def _uni_child(_job):
     import warnings
     warnings.simplefilter("ignore")
     import typelib
-    ns = {"typing": typing, "decimal": decimal, "fractions": fractions}
+    import pathlib
+    from typelib import serdes
+    ns = {"typing": typing, "decimal": decimal, "fractions": fractions, "pathlib": pathlib}
     bad = []
     n = 0
     for tx in UNI_TYPES:
-        t = eval(tx, ns)
+        t = {"LOAD": "LOAD", "STRLOAD": "STRLOAD"}.get(tx) or eval(tx, ns)
         for s_ in UNI_NUMS:
             outs = {}
             for name, mk in (("str", lambda x: x), ("bytes", lambda x: x.encode()), ("bytearray", lambda x: bytearray(x.encode())),
                              ("memoryview(bytes)", lambda x: memoryview(x.encode())), ("memoryview(bytearray)", lambda x: memoryview(bytearray(x.encode())))):
                 try:
-                    r = typelib.unmarshal(t, mk(s_))
+                    r = serdes.load(mk(s_)) if t == "LOAD" else (serdes.strload(mk(s_)) if t == "STRLOAD" else typelib.unmarshal(t, mk(s_)))
                     outs[name] = ("ok", type(r).__name__, repr(r))
                 except Exception as e:  # noqa: BLE001
                     outs[name] = ("rejected",)
